@@ -687,7 +687,7 @@ theorem recreated_dir_empty (ds : List Str) (n : Str) (hds : ∀ c ∈ ds, GoodC
         (marker (renderC (ds ++ [n])))) := by
     unfold pCreateDir
     rw [hE]
-    simp only [andThen, view_marked (contains_of_find hm1), hmkdir, hclear]
+    simp only [andThen, view_marked (contains_of_find hm1), pCreateTail, hmkdir, hclear]
   -- the new upper map, key by key
   generalize hmu3 : ((fillDirs mu (chain [] ds)).insert (renderC (ds ++ [n])) dirEntryNow).erase
     (marker (renderC (ds ++ [n]))) = mu3 at hpure
